@@ -852,6 +852,18 @@ class SymCtx(BaseCtx):
                 excluded = list(el[1])
             else:
                 raise EngineError("replay divergence: boolean decision recorded where an integer choice happens")
+        if not excluded:
+            # a value forced by the path condition is taken whatever its size (e.g. a duration of 8766 hours)
+            m0 = self._ensure_model()
+            v0 = m0.eval(ie, model_completion=True)
+            if z3.is_int_value(v0) and not (lo <= v0.as_long() <= hi):
+                r0, _ = self._check(ie != v0.as_long())
+                if r0 == "unsat":
+                    v = v0.as_long()
+                    self.trace.append(("i", v))
+                    self.lits.append(ie == v)
+                    self.solver.add(ie == v)
+                    return v
         box = z3.And(ie >= lo, ie <= hi, *[ie != k for k in excluded])
         r, m = self._check(box)
         if r != "sat":
